@@ -56,10 +56,18 @@ SCENARIOS = {
 }
 
 _QUERIES = {}
+# (thread name as the kernel shows it, ms before the wake-all, ms after it)
+SYNC_DELAYS = [('find_calling_pr', 300, 300), ('find_calling_pr', 0, 400), ('find_calling_pr', 400, 0), ('delta', 200, 200)]
+
+
+SYNC_SHIM = os.path.join(runner.STUBS, 'syncdelay.so')
 
 
 def prepare(ctx):
-    pass
+    src = os.path.join(runner.STUBS, 'syncdelay.c')
+    if not os.path.exists(SYNC_SHIM) or os.path.getmtime(SYNC_SHIM) < os.path.getmtime(src):
+        subprocess.run(['clang', '-O2', '-shared', '-fPIC', '-o', SYNC_SHIM + '.%d' % os.getpid(), src, '-ldl'], check=True)
+        os.rename(SYNC_SHIM + '.%d' % os.getpid(), SYNC_SHIM)
 
 
 def reference_schedule(name):
@@ -70,7 +78,7 @@ def reference_schedule(name):
     return ['bg:before_lock', 'bg:done', 'query1:before_lock']
 
 
-def run_scenario(name, sched=None, hold=False, jitter=None, variant='hooks', timeout=20.0, jitter_max_us=None, _retry=False):
+def run_scenario(name, sched=None, hold=False, jitter=None, variant='hooks', timeout=20.0, jitter_max_us=None, _retry=False, syncdelay=None):
     """Runs one scenario under one schedule.  Returns dict(out, err, rc, trace, timed_out, deadlock, hold_released)."""
     args, stdin, parent, stub_out, known, guess = SCENARIOS[name]
     w = runner.workdir()
@@ -93,6 +101,11 @@ def run_scenario(name, sched=None, hold=False, jitter=None, variant='hooks', tim
         env['DELTA_VERIF_JITTER'] = str(jitter)
         if jitter_max_us:
             env['DELTA_VERIF_JITTER_MAX_US'] = str(jitter_max_us)
+    sync_log = None
+    if syncdelay is not None:
+        sync_log = os.path.join(tdir, 'c20sync.' + uid)
+        env.update({'LD_PRELOAD': SYNC_SHIM, 'SYNCDELAY_THREAD': syncdelay[0], 'SYNCDELAY_BEFORE_MS': str(syncdelay[1]),
+                    'SYNCDELAY_AFTER_MS': str(syncdelay[2]), 'SYNCDELAY_LOG': sync_log})
     if variant == 'tsan':
         env['TSAN_OPTIONS'] = 'halt_on_error=0 exitcode=66 report_signal_unsafe=0'
     exe = runner.binary(variant)
@@ -137,10 +150,17 @@ def run_scenario(name, sched=None, hold=False, jitter=None, variant='hooks', tim
     if stub_out is not None:
         os.unlink(env['VERIF_STUB_OUT'])
     res.update({'out': out, 'err': err, 'rc': proc.returncode, 'trace': trace})
+    if sync_log is not None:
+        try:
+            with open(sync_log) as f:
+                res['sync_delays'] = len(f.read().splitlines())
+            os.unlink(sync_log)
+        except OSError:
+            res['sync_delays'] = 0
     if res['timed_out'] and not res['deadlock'] and not _retry:
         # threads were busy, not asleep: a slow machine or a thread that spins. One more try with four times the time
         # settles it (these inputs are a few hundred bytes)
-        again = run_scenario(name, sched=sched, hold=hold, jitter=jitter, variant=variant, timeout=4 * timeout, jitter_max_us=jitter_max_us, _retry=True)
+        again = run_scenario(name, sched=sched, hold=hold, jitter=jitter, variant=variant, timeout=4 * timeout, jitter_max_us=jitter_max_us, _retry=True, syncdelay=syncdelay)
         again['retried'] = True
         if again['timed_out'] and not again['deadlock']:
             again['no_termination'] = True
@@ -291,6 +311,13 @@ def plan(ctx):
     items = []
     for name in sorted(SCENARIOS):
         items.append(('forced', name))
+    # delays injected from outside at the wake-all of either thread (no hook involved): before it, after it, both
+    for name in sorted(SCENARIOS):
+        for k, sd in enumerate(SYNC_DELAYS):
+            if sd[0] == 'delta' and SCENARIOS[name][4] is None:
+                continue        # the main thread only notifies when delta launched the command
+            for rep in range(ctx.n(1, 6)):
+                items.append(('syncdelay', name, k, rep))
     for i in range(ctx.n(300, 12000)):
         items.append(('jitter', sorted(SCENARIOS)[i % len(SCENARIOS)], engine.stable_hash((ctx.seed, 'jit', i)) % 100000))
     for i in range(ctx.n(100, 4000)):
@@ -409,6 +436,17 @@ def run_item(item):
                         o = inconclusive('schedule not realised: gates passed in order %s, wanted %s' % (passed, sched))
             outs.append(o)
         return outs
+    if kind == 'syncdelay':
+        ref = _reference(name)
+        sd = SYNC_DELAYS[item[2]]
+        label = 'syncdelay(%s,%d,%d)' % sd
+        r = run_scenario(name, syncdelay=sd)
+        o = evaluate(name, r, label + '#%d' % item[3], ref)
+        if o['status'] == 'held' and not r.get('sync_delays'):
+            o = inconclusive('the shim saw no wake-all of thread %s (%s)' % (sd[0], name), sets={'scenarios': [name]})
+        elif o['status'] == 'held':
+            o['counters']['sync_delays'] = r['sync_delays']
+        return [o]
     if kind in ('jitter', 'unforced', 'tsan'):
         ref = _reference(name)
         variant = 'tsan' if kind == 'tsan' else 'hooks'
@@ -449,6 +487,8 @@ def floors(ctx, agg):
         p.append('fewer than 30 forced schedules realised (%d)' % len(forced))
     if len(agg.sets.get('scenarios', ())) < len(SCENARIOS):
         p.append('not every scenario ran')
+    if len([s for s in sch if 'syncdelay' in s]) < 40:
+        p.append('fewer than 40 runs with delays injected at a wake-all were realised')
     if not any('Q1-waits-then-B' in s for s in sch):
         p.append('the "query waits first" schedule was never realised')
     return p
